@@ -44,6 +44,16 @@ def check(tier, seed):
         pair = [r for r in reqs if r.label in ('UbxCfgPrtPoll', 'AppCfgPrtUsbPoll')]
         for _ in range(12 if tier == 'quick' else 300):
             scs.append(S.scenario(rng, pair, kt, n_req=rng.choice([2, 3]), force='good'))
+        # long noisy histories: 8..14 requests, a checksum-failed frame or two in front of what the receiver sends in every attempt
+        from .. import ubxgen as G
+        for _ in range(10 if tier == 'quick' else 250):
+            sc = S.scenario(rng, reqs, kt, n_req=rng.choice([8, 10, 14]), force='good')
+            att = []
+            for ok, evs in sc['script']['attempts']:
+                bad = [(G.frame(rng.choice([1, 5, 6]), rng.randrange(8), bytes(rng.getrandbits(8) for _ in range(rng.randrange(0, 5))))[:-1] + b'\x00', 0) for _ in range(rng.randrange(1, 3))]
+                att.append((ok, bad + list(evs)))
+            sc['script']['attempts'] = att
+            scs.append(sc)
         tie = RC.model_ties([S.model_cmd(sc, sk) for sc in scs])
         res.notes['deadline_ties_dropped'] = sum(tie)
         for sc in [sc for sc, t in zip(scs, tie) if not t]:
